@@ -159,7 +159,9 @@ func propC15(t *rapid.T) {
 	term := new(int64)
 	skip := rapid.IntRange(0, 4).Draw(t, "callerSkip")
 	skipEarly := rapid.IntRange(0, skip).Draw(t, "skipAppliedBeforeConversions")
-	base := zap.New(core, zap.AddCaller(), zap.AddStacktrace(stackSet.enabler()), zap.WithPanicHook(countHook{term}), zap.WithFatalHook(countHook{term}), zap.AddCallerSkip(skipEarly))
+	// stack traces do not depend on the caller annotation being switched on
+	callerOn := rapid.IntRange(0, 5).Draw(t, "callerAnnotation") != 0
+	base := zap.New(core, zap.WithCaller(callerOn), zap.AddStacktrace(stackSet.enabler()), zap.WithPanicHook(countHook{term}), zap.WithFatalHook(countHook{term}), zap.AddCallerSkip(skipEarly))
 	lg := base
 	var sg *zap.SugaredLogger
 	var chain []string
@@ -236,7 +238,7 @@ func propC15(t *rapid.T) {
 			lvl = fr.lvl
 		}
 	}
-	if depth >= 50 && rapid.IntRange(0, 3).Draw(t, "freshPools") == 0 {
+	if depth >= 50 && rapid.IntRange(0, 9).Draw(t, "freshPools") == 0 {
 		// empty the pools: the stack capture starts from a freshly allocated (not yet grown) pooled object
 		runtime.GC()
 		runtime.GC()
@@ -254,7 +256,9 @@ func propC15(t *rapid.T) {
 	if e.Level != fr.lvl {
 		t.Fatalf("entry level %d want %d: %s", e.Level, fr.lvl, desc)
 	}
-	if !e.Caller.Defined || e.Caller.File != want.file || e.Caller.Line != want.line || e.Caller.Function != want.fn {
+	if !callerOn && !useSlog {
+		// nothing is claimed about the caller column; the stack clause below still applies
+	} else if !e.Caller.Defined || e.Caller.File != want.file || e.Caller.Line != want.line || e.Caller.Function != want.fn {
 		t.Fatalf("caller annotation %s:%d (%s), the user's call site is %s:%d (%s)\n%s", e.Caller.File, e.Caller.Line, e.Caller.Function, want.file, want.line, want.fn, desc)
 	}
 	wantStack := stackSet.on(fr.lvl)
@@ -285,6 +289,9 @@ func propC15(t *rapid.T) {
 	nt := (conversions >= 1 && skip >= 1) || (depth >= 64 && wantStack)
 	var labels []string
 	labels = append(labels, "front "+fr.name)
+	if !callerOn && wantStack {
+		labels = append(labels, "stack trace without caller annotation")
+	}
 	if depth >= 64 && wantStack {
 		labels = append(labels, "stack deeper than pooled storage")
 	}
